@@ -220,6 +220,8 @@ def run_config(chk, config):
         # (with keys carried from somewhere else - a previous round, a stored list - which XOR is "the first block's" cannot be
         # told from the digest: nothing is required of the known ones beyond being well formed)
         need = {"first", "chain"} if not unk else (set() if not kn else {"first"} & set(x["kind"] for x in kn))
+        if os.environ.get("VERIF_DEBUG"):
+            print("XORDBG", name, "kinds", kinds, "need", need, "unk", len(unk), "kn", len(kn), [(x["kind"], x["known_digest"], x["aligned"], x["j"]) for x in xs][:6])
         chk.oblig(not bad and kinds >= need, "xor | %s" % name,
                   "%s: XOR is not buffer[block start + j] ^= digest_of_that_block[j], j in 0..16: %s" % (name, [(x["kind"], x["base"], x["aligned"], x["j"]) for x in bad][:2]),
                   {"rule": "data index - block start = key index, j over exactly 0..16, digest of that block's key"},
